@@ -19,7 +19,7 @@ deriving DecidableEq, Repr, Inhabited
 structure FlowDecl where
   kind : Kind
   rep : FlowRep
-deriving Repr, Inhabited
+deriving DecidableEq, Repr, Inhabited
 
 /-- A quota resource as far as its system flows are concerned: every strategy puts
     `<id>_QuotaProcessorInc` at the start of the request stream; the concurrent strategy also puts
@@ -28,6 +28,7 @@ deriving Repr, Inhabited
     visited first by the traversal). -/
 structure Quota where
   id : String
+  key : String          -- the id with every '.' removed (`buildProcName`)
   concurrent : Bool
   wild : Bool
 deriving DecidableEq, Repr, Inhabited
@@ -38,8 +39,8 @@ structure Cfg where
   quotas : List Quota := []      -- order of the quota file
 deriving Repr, Inhabited
 
-def incKey (q : Quota) : String := q.id.replace "." "" ++ "_QuotaProcessorInc"
-def decKey (q : Quota) : String := q.id.replace "." "" ++ "_QuotaProcessorDec"
+def incKey (q : Quota) : String := q.key ++ "_QuotaProcessorInc"
+def decKey (q : Quota) : String := q.key ++ "_QuotaProcessorDec"
 
 def gStart : End := .stream "globalStream" "start"
 def gEnd : End := .stream "globalStream" "end"
@@ -114,11 +115,16 @@ def sortBy (order : List String) : List FlowDecl → List FlowDecl
   | [] => []
   | d :: ds => insertBy order d (sortBy order ds)
 
+def nodupNames : List String → Bool
+  | [] => true
+  | n :: ns => !ns.contains n && nodupNames ns
+
 /-- `Stream.Initialize` as far as flows are concerned; `order` = build order of the flows. -/
 def load (c : Cfg) (order : List String) : Except LoadErr Loaded :=
   let users := c.flows.filter (·.kind == .user)
   let okFlows := c.flows.filter yamlOk
   if !users.isEmpty && (users.filter yamlOk).isEmpty then .error .yaml else
+  if !nodupNames (((sortBy order okFlows).filter (·.kind == .user)).map (·.rep.name)) then .error .yaml else  -- "duplicate flow name"
   match buildAll (c.ptypes ++ sysPTypes) (sortBy order okFlows ++ sysDecls sysConns c.quotas) with
   | .error e => .error e
   | .ok fs => .ok ⟨fs⟩
